@@ -27,6 +27,7 @@ def vals(r, org, n, special=False):
     return [r.below(R) for _ in range(n)]
 
 PF = [0]
+PFORG = {}      # per organisation: bit 3 = a whole-view copy run is a block move (memmove), bit 4 = a row copy run is a block move (observed on probe ops)
 SHIFTS = {"rgb8": [0, 8, 16], "rgb8p": [0, 8, 16], "bgr8": [0, 8, 16], "rgb565": [0, 5, 11], "rgb222": [0, 2, 4], "gray1": [0], "gray4": [0], "gray8": [0]}
 def one_channel_diff(org, v, c):
     if org == "rgb32f":
@@ -36,7 +37,7 @@ def one_channel_diff(org, v, c):
     return v ^ (1 << sh)
 
 def line(alg, org, sk, dk, w, h, so, do, spad, dpad, arg, sv, dv, s2v=None):
-    s = "%s %s %s %s %d %d %d %d %d %d %d %d | %s | %s" % (alg, org, sk, dk, w, h, so, do, spad, dpad, arg, PF[0], " ".join(map(str, sv)), " ".join(map(str, dv)))
+    s = "%s %s %s %s %d %d %d %d %d %d %d %d | %s | %s" % (alg, org, sk, dk, w, h, so, do, spad, dpad, arg, PF[0] + (PFORG.get(org, 0) if alg == "copyov" else 0), " ".join(map(str, sv)), " ".join(map(str, dv)))
     if s2v is not None: s += " | " + " ".join(map(str, s2v))
     return s
 
@@ -168,6 +169,20 @@ def compile_all(ctx):
             stores = out.strip().endswith("; 9")
         except Exception: stores = False
     if stores: PF[0] += 4
+    # overlapping copies outside std::copy's precondition (a destination pixel written earlier is read later) are not promised by the property; WHICH
+    # of the two possible results the code gives (block move = original source pixels, element loop = smear) depends on the iterator types and on
+    # libstdc++'s trivially-copyable shortcut: observed once per organisation and path on a probe op, all other overlapping ops must agree with it
+    for b, org in enumerate(ORGS):
+        PFORG[org] = 0
+        if not bins.get(b, (None, ""))[0]: continue
+        try:
+            probes = "copyov %s full full 1 3 0 0 0 0 27 %d | 1 0 1 0 0 |\ncopyov %s sub sub 3 1 0 0 0 0 9 %d | 1 0 0 1 1 0 0 1 0 1 1 1 0 1 0 |\n" % (org, PF[0], org, PF[0])
+            out = subprocess.run([bins[b][0]], input=probes, capture_output=True, text=True, timeout=60).stdout.splitlines()
+            if len(out) == 2:
+                if out[0].split(";")[-1].split() == "1 1 0 1 0".split(): PFORG[org] += 8
+                if out[1].split(";")[-1].split()[:5] == "1 1 0 0 1".split(): PFORG[org] += 16
+        except Exception: pass
+    ctx.cov["observed_block_move_flags"] = dict(PFORG)
     ctx.cov["source_variant_uninitialized_copy_stores_through_proxies"] = stores
     return bins
 
@@ -180,7 +195,7 @@ def run(ctx, ops=None):
         ctx.broken.append(("harness", "compile org %s" % b, e[-1500:])); ctx.log("harness does not compile (org %s):\n%s" % (b, e[-1500:]))
     if not bad:
         import re
-        ops = [re.sub(r"^((?:\S+ ){11})\d+", r"\g<1>%d" % PF[0], o) for o in ops] if ops else gen_ops(ctx)
+        ops = [re.sub(r"^((?:\S+ ){11})\d+", r"\g<1>%d" % (PF[0] + (PFORG.get(o.split()[1], 0) if o.startswith("copyov ") else 0)), o) for o in ops] if ops else gen_ops(ctx)
         groups = {}
         for o in ops:
             org = o.split()[1]
